@@ -479,6 +479,14 @@ def range_limits(ctx, label, case, curve, h0):
                 "matching returned), range test of the deflagration window skipped" % (
                     h0.vMin + h0.vBracketLow, label))
         configs = []
+        # reported as a finding only once it is listed in known_findings.json (see report)
+        key = "fastestDeflag:window-start-unsolved"
+        if any(k.get("property") == "C06" and k.get("key") == key
+               for k in ctx.known.get("findings", [])):
+            ctx.fail_input("findMatching(vMin+vBracketLow) returns no solution; fastestDeflag "
+                           "raises TypeError when a range cuts the window [%s]" % label,
+                           dict(kind="range", case=case, which="low", TMaxLowT=Tm_hi,
+                                TMaxHighT=big, lowEnds=False, highEnds=False), key=key)
     for which, TML, TMH in configs:
         if TML <= Tn or TMH <= Tn:
             continue          # the nucleation temperature must be inside both tables
@@ -830,8 +838,13 @@ def replay(rep):
     h = new_hydro(model)
     print("vJ=%r vMin=%r" % (h.vJ, h.vMin))
     if kind == "range":
-        v = h.fastestDeflag()
-        print("fastestDeflag() =", v, "flags", h.doesPhaseTraceLimitvmax)
+        print("findMatching(vMin+vBracketLow=%r) =" % (h.vMin + h.vBracketLow),
+              h.findMatching(h.vMin + h.vBracketLow))
+        try:
+            v = h.fastestDeflag()
+            print("fastestDeflag() =", v, "flags", h.doesPhaseTraceLimitvmax)
+        except Exception as ex:
+            print("fastestDeflag() raised %r" % ex)
     if kind == "range-deton":
         print("slowestDeton() =", h.slowestDeton())
     if "vw" in rep:
